@@ -78,6 +78,10 @@ func genFan(t *rapid.T, o fanOpts) (sim.FanSpec, map[int]int) {
 			f.MinPwm, f.MaxPwm = ip(lo), ip(hi)
 			if rapid.Bool().Draw(t, "startCfg") {
 				f.StartPwm = ip(rapid.IntRange(lo, hi).Draw(t, "start"))
+				if rapid.IntRange(0, 3).Draw(t, "startAnywhere") == 0 {
+					// nothing ties startPwm to the limits: below the minimum, above the maximum
+					f.StartPwm = ip(rapid.IntRange(0, 255).Draw(t, "startAny"))
+				}
 			}
 		case 1: // measured: rpm 0 below lo, rising until hi, flat above
 			d := map[int]float64{}
